@@ -114,6 +114,11 @@ func c10Child(tier string, seed int64) {
 		_ = os.WriteFile(filepath.Join(ctxDir, "context.jsonld"), []byte(ctxText), 0o644)
 		docs = append(docs, doc)
 	}
+	// a profile nested 3000 levels deep (cheap for the engine): whatever is counted per nesting level is counted concurrently
+	deep := "profile: c10 deep\nprefixes:\n  ex: http://ex.org/\nviolation:\n  - v\nvalidations:\n  v:\n    targetClass: ex.T\n    message: m\n    not: " +
+		strings.Repeat("{not: ", 3000) + "{propertyConstraints: {ex.x: {minCount: 1}}}" + strings.Repeat("}", 3000) + "\n"
+	profiles = append(profiles, deep, deep)
+	deepIdx := len(profiles) - 1
 	// documents that are answered with an error from deep inside the normalizer (broken source maps): failure paths run concurrently too
 	docs = append(docs,
 		strings.Replace(lib.SourceMapDoc(), `"http://a.ml/vocabularies/document-source-maps#element":[{"@value":"http://ex.org/n1"}],`, "", 1),
@@ -202,6 +207,9 @@ func c10Child(tier string, seed int64) {
 				op.Kind, op.P = "compile", r.Intn(len(profiles))
 				if r.Intn(2) == 0 {
 					op.P = 0 // the wide profile: many generated names
+				}
+				if round%12 == 3 {
+					op.P = deepIdx // every goroutine compiles the 3000-level profile at the same time
 				}
 			case "failing-reports-under-different-configurations":
 				// non-conforming reports (full report context) under alternating report configurations
